@@ -345,6 +345,8 @@ func visitInstr(fr *frame, instr ssa.Instruction) continuation {
 			fr.env[instr] = x[fr.i.indexOf(idx, len(x))]
 		case string:
 			fr.env[instr] = x[fr.i.indexOf(idx, len(x))]
+		case symStr:
+			fr.env[instr] = x.bs[fr.i.indexOf(idx, len(x.bs))]
 		default:
 			panic(fmt.Sprintf("unexpected x type in Index: %T", x))
 		}
